@@ -12,7 +12,10 @@ VERIF = os.path.dirname(os.path.dirname(os.path.abspath(__file__)))
 SPEC = os.path.join(VERIF, "spec")
 WORK = os.path.join(VERIF, "work")
 HARNESS = os.path.join(VERIF, "harness")
-ORDV = os.path.join(HARNESS, "target", "debug", "ordv")
+# VERIF_TARGET_DIR: build and run the harness from another cargo target directory (used to try seeded changes
+# while another check is running from the default one)
+TARGET = os.environ.get("VERIF_TARGET_DIR") or os.path.join(HARNESS, "target")
+ORDV = os.path.join(TARGET, "debug", "ordv")
 EVIDENCE = os.path.join(VERIF, "evidence")
 REPLAYS = os.path.join(VERIF, "replays")
 KNOWN = os.path.join(VERIF, "known_findings.json")
@@ -35,6 +38,8 @@ def build_harness():
     """(Re)build the harness against /repo's current working tree with the verif feature."""
     t = time.time()
     env = dict(os.environ, CARGO_NET_OFFLINE="true")
+    if os.environ.get("VERIF_TARGET_DIR"):
+        env["CARGO_TARGET_DIR"] = TARGET
     r = subprocess.run(["cargo", "build", "--offline"], cwd=HARNESS, env=env,
                        stdout=subprocess.PIPE, stderr=subprocess.STDOUT, text=True)
     if r.returncode != 0:
